@@ -45,16 +45,19 @@ REQUIRED_EVENTS = {"any": ["mcf.check.capacity", "mcf.check.balance", "mcf.check
                            "ns.l2.pivot-checked", "ns.l2.final-checked", "ns.l2.thread-preorder",
                            "ns.l2.tree-arc-reduced-cost-zero"]}
 
-# step budgets: F_ref = largest fuel seen per call on the unchanged tree (quick+thorough, seeds 0-4): small strata
-# < 25k, larger < 400k.  Budget = 50 x F_ref, floor 1.5M.
-BUDGET_SMALL = 1_500_000
-BUDGET_LARGE = 20_000_000
+# step budgets: F_ref = largest fuel of one call on the unchanged tree (seeds 0-4, both tiers): networks with
+# n <= 14: < 4k, solve_assignment up to 9x9: < 9k, "larger" (10-30 nodes): < 60k.  Budget >= 50 x F_ref.
+BUDGET_SMALL = 300_000
+BUDGET_ASSIGN = 600_000
+BUDGET_LARGE = 3_000_000
 HANG = "no-return-within-budget"
 
 _flow = None
 _ns = None
 _mon = None
 _Status = None
+_shrink = {"hang": False, "yielded": 0}   # minimising a hang re-runs the budget many times: bounded separately
+SHRINK_HANG_MAX = 24
 
 
 def setup():
@@ -199,6 +202,7 @@ def _multi(rng, n, arcs, p_feasible=0.7):
 
 
 def gen(stratum, rng, tier):
+    _shrink["yielded"] = 0
     if stratum == "assignment":
         r, c = rng.randint(1, 6), rng.randint(1, 6)
         if rng.random() < 0.08:
@@ -531,7 +535,7 @@ def _run_net(case, obs):
                     k1, c1 = _judge(obs, "mcf", res, n, arcs, sup, truth, inv=inv, show=lambda x: lab[x])
             else:
                 k1 = c1 = None
-            k2, c2, an = _run_ns(obs, n, arcs, sup, truth, "s-t", max_iter=max_iter, budget=budget)
+            k2, c2, an = (None, None, False) if _hung(obs) else _run_ns(obs, n, arcs, sup, truth, "s-t", max_iter=max_iter, budget=budget)
             if an:
                 anomalies.append((sup, truth))
             if k1 is not None and k2 is not None:
@@ -541,7 +545,7 @@ def _run_net(case, obs):
                 elif k1 == "flow" and c1 != c2:
                     obs.violate("agree.cost", f"min_cost_flow cost {c1!r} != network_simplex cost {c2!r} (minimum {truth[0] if truth else None})")
 
-    if case["multi"] is not None:
+    if case["multi"] is not None and not _hung(obs):
         sup = list(case["multi"])
         truth = _oracle(obs, n, arcs, sup)
         if truth != "skip":
@@ -553,7 +557,7 @@ def _run_net(case, obs):
                 anomalies.append((sup, truth))
 
     # bounded re-examination after an internal anomaly: same instance, other arc orders (same optimum)
-    if anomalies and max_iter is None:
+    if anomalies and max_iter is None and not _hung(obs):
         rr = Random(case.get("reseed", 0))
         for sup, truth in anomalies[:2]:
             for k in range(3):
@@ -562,6 +566,8 @@ def _run_net(case, obs):
                     perm.reverse()
                 else:
                     rr.shuffle(perm)
+                if _hung(obs):
+                    break
                 obs.event("ns.l2.reexamined")
                 _run_ns(obs, n, perm, sup, truth, f"re-exam{k}", budget=budget)
     obs.nontrivial = nontrivial
@@ -581,7 +587,7 @@ def _run_assign(case, obs):
     r = len(M)
     c = len(M[0]) if r else 0
     k = min(r, c)
-    res = call(obs, _flow.solve_assignment, [list(row) for row in M], what="solve_assignment", budget=BUDGET_SMALL * 2, hang_cls=HANG)
+    res = call(obs, _flow.solve_assignment, [list(row) for row in M], what="solve_assignment", budget=BUDGET_ASSIGN, hang_cls=HANG)
     obs.nontrivial = k >= 1
     if is_crash(res):
         obs.outcome("asg:crash")
@@ -621,11 +627,25 @@ def run(case, obs):
         _run_assign(case, obs)
     else:
         _run_net(case, obs)
+    _shrink["hang"] = any(c == HANG for c, _ in obs.violations)
+
+
+def _hung(obs):
+    return any(c == HANG for c, _ in obs.violations)
 
 
 # ---------------------------------------------------------------- minimisation
 
 def shrink(case):
+    for cand in _shrink_candidates(case):
+        if _shrink["hang"]:
+            _shrink["yielded"] += 1
+            if _shrink["yielded"] > SHRINK_HANG_MAX:
+                return
+        yield cand
+
+
+def _shrink_candidates(case):
     if case["kind"] == "assign":
         M = case["matrix"]
         for i in range(len(M)):
